@@ -772,6 +772,50 @@ func (w *Worker) callBuiltin(caller *frame, callpos token.Pos, fn *ssa.Builtin, 
 
 	case "ssa:deferstack":
 		return &caller.defers
+
+	case "String": // unsafe.String(ptr *byte, len)
+		n := int(p.concInt(args[1].(*Term)))
+		ptr, _ := args[0].(*Value)
+		if n == 0 {
+			return Str{}
+		}
+		if ref, ok := p.elemOrigin[ptr]; ok && ref.i+n <= cap(ref.s) {
+			return mkStr(sliceBytes(ref.s[ref.i : ref.i+n : ref.i+n]))
+		}
+		p.unsupported("unsafe.String of an untracked pointer")
+
+	case "StringData": // unsafe.StringData(s) *byte
+		s := args[0].(Str)
+		if s.Len() == 0 {
+			return (*Value)(nil)
+		}
+		bs := w.strBytes(s)
+		sl := make(Slice, len(bs))
+		for i, b := range bs {
+			sl[i] = b
+		}
+		p.noteElem(&sl[0], sl, 0)
+		return &sl[0]
+
+	case "Slice": // unsafe.Slice(ptr *T, len)
+		n := int(p.concInt(args[1].(*Term)))
+		ptr, _ := args[0].(*Value)
+		if ptr == nil {
+			return Slice(nil)
+		}
+		if ref, ok := p.elemOrigin[ptr]; ok && ref.i+n <= cap(ref.s) {
+			return ref.s[ref.i : ref.i+n : ref.i+n]
+		}
+		p.unsupported("unsafe.Slice of an untracked pointer")
+
+	case "SliceData": // unsafe.SliceData(s) *T
+		sl := args[0].(Slice)
+		if cap(sl) == 0 {
+			return (*Value)(nil)
+		}
+		full := sl[:1]
+		p.noteElem(&full[0], sl[:cap(sl)], 0)
+		return &full[0]
 	}
 	p.unsupported("builtin %s", fn.Name())
 	return nil
